@@ -15,6 +15,8 @@ def run(ctx):
         ctx.violation("harness-build", "the harness does not build against the current tree: " + out[-1500:], {"build_output": out[-4000:]}, failing_input=False)
         return ctx.finish()
     vlib.seq_differential(ctx, BatchSpec(), exe, proofs_ok, tag="batch")
+    if ctx.tier == "thorough":
+        vlib.patience_part(ctx, BatchSpec(), exe, proofs_ok, tag="batch")
     vlib.merge_parts(ctx, "cases = controller scripts (gated source releasing items singly/in bursts then End or an error, optional gated full(), consumer Next calls with live/cancelled contexts "
                      "incl. successive and concurrent waiters, sleeps past maxWait, Close at any point) run against the real Batch/BatchFunc; each recorded history must be accepted by the LTS model "
                      "(some schedule produces it; every quiescence point is a model state with nothing enabled and no timer running) and satisfy the direct oracle (partition, sizes, error position, "
